@@ -16,7 +16,7 @@ def run(ctx):
         "Q5 piece_diag/piece_line are bishops|queens and rooks|queens",
     ]
     ctx.not_decided += ["that the union of five reverse lookups equals 'can capture pseudo-legally' (a geometric lemma about chess, "
-                        "recorded as an assumption); occupancy-set correctness of the board itself is C05"]
+                        "recorded as an assumption)"]
     ctx.assume("reverse-lookup lemma: a man of kind k on square x attacks s iff x is in attack_k(s) (for pawns with the colour inverted)")
     c15.t1(ctx, facts, "Q0")
     c15.t2(ctx, facts)
@@ -24,3 +24,6 @@ def run(ctx):
     attackrules.sibling_rules(ctx, facts, "Q1")
     attackrules.dispatch_rules(ctx, facts, "Q4")
     attackrules.pinned_rule(ctx, facts, "Q5")
+    from .shared import hash_component
+    hash_component(ctx, facts, "Q6", "the queries read the occupancy sets, not the squares: a set that keeps a captured man's bit answers "
+                   "with the attacks of a man that is not there")
